@@ -758,7 +758,8 @@ type c08Job struct {
 	envs   []string
 	toFile bool // the command writes its report with -output=<file> (weblist would open a browser)
 	files  []string
-	args   []string
+	args   []string // may contain the placeholders @more<i> (file of more[i], e.g. -base=@more0) and @src (source tree)
+	extra  []string // files of the profiles in `more` that are NOT positional arguments (referenced by @more<i>)
 	stream string
 	outs   [][]byte
 	codes  []int
@@ -802,8 +803,21 @@ func c08NeedsFile(args []string) bool {
 	return len(args) > 0 && strings.HasPrefix(args[0], "-weblist")
 }
 
+// c08Subst replaces the placeholders of a job's arguments.
+func c08Subst(args, extra []string, tmp string) []string {
+	out := make([]string, len(args))
+	for i, a := range args {
+		for k, f := range extra {
+			a = strings.ReplaceAll(a, fmt.Sprintf("@more%d", k), f)
+		}
+		out[i] = strings.ReplaceAll(a, "@src", filepath.Join(tmp, "srctree"))
+	}
+	return out
+}
+
 func c08RunJobs(c *Ctx, tmp string, jobs []*c08Job, runs int) {
 	c08EnvPrepare(tmp)
+	c08WriteSourceTree(filepath.Join(tmp, "srctree"))
 	for _, j := range jobs {
 		j.tzFree = true // no "Time:" legend line: the time zone must not matter either
 		for _, cn := range append([]string{j.canon}, j.more...) {
@@ -830,7 +844,7 @@ func c08RunJobs(c *Ctx, tmp string, jobs []*c08Job, runs int) {
 						// directory, and the "could not find file … on path <cwd>" message names it
 						ev.Dir = ""
 					}
-					o, code := c08RunCLIEnv(c, j.files, j.args, outFile, ev)
+					o, code := c08RunCLIEnv(c, j.files, c08Subst(j.args, j.extra, tmp), outFile, ev)
 					j.envs = append(j.envs, ev.Name)
 					j.outs = append(j.outs, o)
 					j.codes = append(j.codes, code)
@@ -1309,6 +1323,7 @@ func c08ReplayCLI(c *Ctx, cs c08Case) {
 		return
 	}
 	fns := []string{fn}
+	var extra []string
 	for i, m := range cs.More {
 		q, err := ParseCanon(m)
 		if err != nil {
@@ -1320,7 +1335,14 @@ func c08ReplayCLI(c *Ctx, cs c08Case) {
 			c.Res.HarnessError = err.Error()
 			return
 		}
-		fns = append(fns, f2)
+		if strings.Contains(strings.Join(cs.Args, " "), fmt.Sprintf("@more%d", i)) {
+			for len(extra) < i {
+				extra = append(extra, "")
+			}
+			extra = append(extra, f2) // referenced by a flag (-base=@more0), not positional
+		} else {
+			fns = append(fns, f2)
+		}
 	}
 	runs := cs.Runs
 	if runs < 8 {
@@ -1329,7 +1351,7 @@ func c08ReplayCLI(c *Ctx, cs c08Case) {
 	// spread the runs over the workers: same job several times
 	var jobs []*c08Job
 	for k := 0; k < 8; k++ {
-		jobs = append(jobs, &c08Job{canon: cs.Profile, files: fns, args: cs.Args, stream: cs.Stream, toFile: c08NeedsFile(cs.Args)})
+		jobs = append(jobs, &c08Job{canon: cs.Profile, more: cs.More, files: fns, extra: extra, args: cs.Args, stream: cs.Stream, toFile: c08NeedsFile(cs.Args)})
 	}
 	c08RunJobs(c, tmp, jobs, (runs+7)/8)
 	merged := &c08Job{canon: cs.Profile, more: cs.More, files: fns, args: cs.Args, stream: cs.Stream}
@@ -1341,7 +1363,7 @@ func c08ReplayCLI(c *Ctx, cs c08Case) {
 }
 
 func runC08(c *Ctx) {
-	c.Res.Rule = "(i) 7 node orders + EdgeMap.Sort + SortTags(flat|cum) on 8 shuffles of tie-rich element sets (weights from {±5,±3,7,0,±1,MinInt64,±MaxInt64}; equal names at different addresses/objects/lines; stream 'spaces' = strings with embedded spaces, kept apart): one order over all shuffles, equal to the model's sortBy(lessOf regenerated descriptors), renderings equal; non-trivial = at least two elements agree on the primary key magnitude or the printable name. (ii) generated valid tie-rich profiles (strategies pm-pairs, same-names, equal-flat-cum, positive, many-edges) × every CLI format (-top -tree -peek -dot -callgrind -tags -traces -raw -proto -topproto + option variants), k fresh processes each, stdout and exit code byte-compared; non-trivial = pprof exits 0 with non-empty output; in-process serialization twice / reparse-reserialize. (iii) local symbolization through the real symbolizer with a scripted ObjTool on unsymbolized profiles with 3-5 mappings (locations interleaved, some functions answered by several binaries, sometimes sparse pre-existing ids): 5 repetitions whose per-mapping SourceLine latency is permuted and GOMAXPROCS varied must serialize byte-identically, and ids/prof.Function order must equal the model's first-come numbering; non-trivial = at least 3 mappings need symbolization. (iv) web UI payloads (json of rpt.Stacks(), /top /flamegraph /peek /source /disasm /download) of generated profiles computed in 5 fresh processes each (the harness re-executed as C08child) and byte-compared; non-trivial = /top and /flamegraph answer 200 and the stack data is non-empty. (v) 8 goroutines serialising ONE label-rich profile concurrently (Write/WriteUncompressed/Copy), each result compared with a lone serialisation. (vi) parsing: generated legacy texts (heap v1/v2, growthz, contentionz, Go mutex, threadz, Go count) and bare memory maps (ParseProcMaps, ParseMemoryMap) whose maps use 2-5 substitution attributes with prefix-overlapping names, redefinitions and both map-line syntaxes, parsed 32 times in process and once in each fresh child: String() and WriteUncompressed identical; non-trivial = accepted by the parser. (vii) residual-edge graph shapes (mutual recursion, rotations, cycles of 2-4 hubs over helpers that -nodefraction/-nodecount drop): -dot in 16 fresh processes and 24 renders in process. (ix) environment independence: repetition k of every CLI job runs in environment variant k mod 6 (working directory — also ones named like path components of the profile's file names —, HOME, TMPDIR, PPROF_TMPDIR, LANG/LC_ALL, TERM/COLUMNS, GOMAXPROCS, umask, PATH order; TZ only for profiles without collection time), web children likewise for cwd/HOME. (viii) time probe: Profile.Write and pprof -proto of a profile without collection time, repeated more than a second apart, byte-identical. The web stream includes profiles with more matching functions/files (60-90) than the web UI limits (50) and a profile-scripted ObjTool so that /disasm and /source listings are produced."
+	c.Res.Rule = "(i) 7 node orders + EdgeMap.Sort + SortTags(flat|cum) on 8 shuffles of tie-rich element sets (weights from {±5,±3,7,0,±1,MinInt64,±MaxInt64}; equal names at different addresses/objects/lines; stream 'spaces' = strings with embedded spaces, kept apart): one order over all shuffles, equal to the model's sortBy(lessOf regenerated descriptors), renderings equal; non-trivial = at least two elements agree on the primary key magnitude or the printable name. (ii) generated valid tie-rich profiles (strategies pm-pairs, same-names, equal-flat-cum, positive, many-edges) × every CLI format (-top -tree -peek -dot -callgrind -tags -traces -raw -proto -topproto + option variants), k fresh processes each, stdout and exit code byte-compared; non-trivial = pprof exits 0 with non-empty output; in-process serialization twice / reparse-reserialize. (iii) local symbolization through the real symbolizer with a scripted ObjTool on unsymbolized profiles with 3-5 mappings (locations interleaved, some functions answered by several binaries, sometimes sparse pre-existing ids): 5 repetitions whose per-mapping SourceLine latency is permuted and GOMAXPROCS varied must serialize byte-identically, and ids/prof.Function order must equal the model's first-come numbering; non-trivial = at least 3 mappings need symbolization. (iv) web UI payloads (json of rpt.Stacks(), /top /flamegraph /peek /source /disasm /download) of generated profiles computed in 5 fresh processes each (the harness re-executed as C08child) and byte-compared; non-trivial = /top and /flamegraph answer 200 and the stack data is non-empty. (v) 8 goroutines serialising ONE label-rich profile concurrently (Write/WriteUncompressed/Copy), each result compared with a lone serialisation. (vi) parsing: generated legacy texts (heap v1/v2, growthz, contentionz, Go mutex, threadz, Go count) and bare memory maps (ParseProcMaps, ParseMemoryMap) whose maps use 2-5 substitution attributes with prefix-overlapping names, redefinitions and both map-line syntaxes, parsed 32 times in process and once in each fresh child: String() and WriteUncompressed identical; non-trivial = accepted by the parser. (vii) residual-edge graph shapes (mutual recursion, rotations, cycles of 2-4 hubs over helpers that -nodefraction/-nodecount drop): -dot in 16 fresh processes and 24 renders in process. (x) merging: source pairs with EQUAL samples (same stack, same multi-key string/numeric label sets) within and across sources: profile.Merge / Merge with a negated base / Compact 16 times in process, and `pprof a b`, -base, -diff_base for -proto/-raw/-traces/-top/-tags in 8 fresh processes. (xi) source listings: -list/-weblist with a readable source tree (-source_path) on profiles where 2-4 functions share a printable name and file but differ in StartLine, 8 fresh processes. (ix) environment independence: repetition k of every CLI job runs in environment variant k mod 6 (working directory — also ones named like path components of the profile's file names —, HOME, TMPDIR, PPROF_TMPDIR, LANG/LC_ALL, TERM/COLUMNS, GOMAXPROCS, umask, PATH order; TZ only for profiles without collection time), web children likewise for cwd/HOME. (viii) time probe: Profile.Write and pprof -proto of a profile without collection time, repeated more than a second apart, byte-identical. The web stream includes profiles with more matching functions/files (60-90) than the web UI limits (50) and a profile-scripted ObjTool so that /disasm and /source listings are produced."
 	if c.Replay != "" {
 		var cs c08Case
 		if err := c.LoadReplay(&cs); err != nil {
@@ -1378,6 +1400,14 @@ func runC08(c *Ctx) {
 			}
 			cc.Rounds *= 4
 			c08Concurrent(c, cc)
+		case "merge-inprocess":
+			var mc c08MergeCase
+			if err := c.LoadReplay(&mc); err != nil {
+				c.Res.HarnessError = err.Error()
+				return
+			}
+			mc.Reps = 100
+			c08MergeInProcess(c, mc)
 		case "dot-inprocess":
 			var sc c08ShapeCase
 			if err := c.LoadReplay(&sc); err != nil {
@@ -1417,6 +1447,8 @@ func runC08(c *Ctx) {
 	c08SymStream(c, r.Fork(), 40*c.Scale)
 	c08ConcStream(c, r.Fork(), 6*c.Scale)
 	c08ShapeStream(c, r.Fork(), 6*c.Scale, 16)
+	c08MergeStream(c, r.Fork(), 6*c.Scale, 8)
+	c08ListStream(c, r.Fork(), 6*c.Scale, 8)
 	legacy := c08ParseStream(c, r.Fork(), 28*c.Scale)
 	c08WebStream(c, r.Fork(), 12*c.Scale, 5, legacy)
 	runs := 5
